@@ -38,6 +38,9 @@ pub struct W5Case {
     pub draws: Vec<u32>,
     pub delivery_seed: u64,
     pub stages: Vec<Stage>,
+    /// when the proxy built the request: (unix seconds, nanoseconds); absent = T0
+    #[serde(default)]
+    pub clock: Option<(i64, u32)>,
 }
 
 const HEADER_INPUTS: &[&[(&str, &str)]] = &[
@@ -511,6 +514,7 @@ impl World for W5 {
                 draws,
                 delivery_seed: rng.next_u64(),
                 stages: gen_stages(rng, &codes, false),
+                clock: None,
             }
         } else {
             // hand-off: actions that real routers emit for real rule pools
@@ -582,6 +586,29 @@ impl World for W5 {
                 ip: if rng.chance(1, 3) { None } else { Some(rng.pick_str(crate::w1::IPS)) },
                 dt_ns: 0,
             } };
+            // the request is built right at, just before or just after an edge of a date / time / weekday window of
+            // one of the rules (sub-millisecond distances included: what crosses the hand-off is text)
+            let mut edges: Vec<i64> = Vec::new();
+            for r in &rules {
+                edges.extend(crate::w1::window_edges(r));
+            }
+            let clock = if !edges.is_empty() && rng.chance(2, 3) {
+                let e = edges[rng.below(edges.len())];
+                Some(match rng.below(8) {
+                    0 => (e - 1, 999_999_999),
+                    1 => (e - 1, 999_600_000),
+                    2 => (e - 1, 999_400_000),
+                    3 => (e, 0),
+                    4 => (e, 1),
+                    5 => (e, 400_000),
+                    6 => (e, 999_999),
+                    _ => (e - 1, 999_999_499),
+                })
+            } else if rng.chance(1, 3) {
+                Some((T0 + rng.below(7 * 86400) as i64 - 3 * 86400, rng.below(1_000_000_000) as u32))
+            } else {
+                None
+            };
             W5Case {
                 config,
                 rules,
@@ -590,6 +617,7 @@ impl World for W5 {
                 draws: vec![0; 16],
                 delivery_seed: rng.next_u64(),
                 stages: gen_stages(rng, &codes, true),
+                clock,
             }
         }
     }
@@ -683,7 +711,10 @@ fn exec(case: &W5Case, ctx: &mut Ctx) {
         return;
     }
     let fold_mode = ctx.mode == "fold";
-    let now = Utc.timestamp_opt(T0, 0).single().unwrap();
+    let now = match case.clock {
+        Some((secs, nanos)) => Utc.timestamp_opt(secs, nanos).single().unwrap_or_else(|| Utc.timestamp_opt(T0, 0).single().unwrap()),
+        None => Utc.timestamp_opt(T0, 0).single().unwrap(),
+    };
 
     // --- proxy builds the request, hands it to the agent through JSON
     let built = guard(ctx, "request build + hand-off", || {
